@@ -298,8 +298,12 @@ func runHeapBoundary(c *core.Ctx, j int) {
 	for m.N < size {
 		m.DoPush([]E{next(1)})
 	}
-	for round := r.Range(1, 4); round > 0; round-- {
-		for p := r.Range(1, 3); p > 0; p-- {
+	for round, rounds := 0, r.Range(1, 4); round < rounds; round++ {
+		pops := r.Range(1, 3)
+		if round == 0 && r.Bool() {
+			pops = 1 // exactly one: a second pop would re-sift (and repair) the last slot
+		}
+		for p := pops; p > 0; p-- {
 			m.DoPop()
 		}
 		for p := r.Range(1, 4); p > 0; p-- {
@@ -467,8 +471,97 @@ func runHeapPerms(c *core.Ctx, j int) {
 	c.Nontrivial()
 }
 
+// The same sweep for k = 13..15 (up to 32 770 elements) with a lighter oracle:
+// int elements, the drain compared with the sorted contents (a per-pop scan of
+// the model would be quadratic here).
+const heapBigBoundaryCases = 3 * 4 * 3 * 2
+
+func runHeapBoundaryBig(c *core.Ctx, j int) {
+	r := c.R
+	queue := j%2 == 1
+	j /= 2
+	k := 13 + j%3
+	delta := []int{-1, 0, 1, 2}[(j/3)%4]
+	pattern := (j / 12) % 3
+	natural := func(a, b int) int { return cmp.Compare(a, b) }
+	var push func(int)
+	var pop func() (int, bool)
+	name := "BinaryHeap"
+	if queue {
+		q := priorityqueue.NewWith[int](natural)
+		push, pop, name = q.Enqueue, q.Dequeue, "PriorityQueue"
+	} else {
+		h := binaryheap.NewWith[int](natural)
+		push, pop = func(v int) { h.Push(v) }, h.Pop
+	}
+	seq := 1 << 24
+	next := func() int {
+		switch pattern {
+		case 0:
+			seq += 1 + r.Intn(3)
+			return seq
+		case 1:
+			seq -= 1 + r.Intn(3)
+			return seq
+		}
+		return r.Intn(1 << 30)
+	}
+	size := 1<<k + delta
+	c.Begin(name, "single pushes up to", size, "then single pops and pushes, then a drain")
+	var model []int
+	for len(model) < size {
+		v := next()
+		push(v)
+		model = append(model, v)
+	}
+	sort.Ints(model)
+	takeMin := func(step string) {
+		v, ok := pop()
+		if !ok || v != model[0] {
+			c.Fail("pop", "not-minimal", "%s with %d elements (%s): Pop() = (%d,%v), the minimum is %d", name, len(model), step, v, ok, model[0])
+		}
+		model = model[1:]
+	}
+	for round, rounds := 0, r.Range(1, 4); round < rounds; round++ {
+		pops := r.Range(1, 3)
+		if round == 0 {
+			pops = 1 // exactly one: a second pop would re-sift (and repair) the last slot
+		}
+		for p := pops; p > 0; p-- {
+			takeMin("at the level boundary")
+		}
+		for p := r.Range(1, 4); p > 0; p-- {
+			v := next()
+			push(v)
+			i := sort.SearchInts(model, v)
+			model = append(model, 0)
+			copy(model[i+1:], model[i:])
+			model[i] = v
+		}
+	}
+	// as many single pushes again, all beyond the current maximum (no search needed)
+	top := model[len(model)-1]
+	for p := 0; p < size; p++ {
+		top += 1 + r.Intn(3)
+		push(top)
+		model = append(model, top)
+	}
+	for len(model) > 0 {
+		takeMin("draining")
+	}
+	if _, ok := pop(); ok {
+		c.Fail("drain", "extra", "%s yields an element after all contained ones were drained", name)
+	}
+	c.Count("heap:big-boundary-cases", 1)
+	c.Nontrivial()
+}
+
 func runC06(c *core.Ctx) {
 	r := c.R
+	if j := c.Index - heapBoundaryCases - heapPermCases; j >= 0 && j < heapBigBoundaryCases {
+		runHeapBoundaryBig(c, j)
+		return
+	}
 	if c.Index < heapBoundaryCases {
 		runHeapBoundary(c, c.Index)
 		return
@@ -609,7 +702,7 @@ func init() {
 		Title:   "Heap and priority queue always yield a minimum and never lose elements",
 		Cases:   func(tier string) int { return tierN(tier, 16000, 400000) },
 		Run:     runC06,
-		ParSkip: func(string) int { return heapBoundaryCases + 16 },
+		ParSkip: func(string) int { return heapBoundaryCases + heapPermCases + heapBigBoundaryCases + 8 },
 		Rule: "the first 384 cases sweep the level boundaries: heaps and queues built to 2^k-1, 2^k, 2^k+1, 2^k+2 elements for every k up to 12 with ascending, descending, random and tied values, popped a few times and then driven by single pushes and pops only, then drained; the next 6 load EVERY arrangement of 0..n-1 for n <= 8 and of a 9-element multiset with ties through FromJSON and drain it. The others: random interleavings of Push(1 value), bulk Push(k values, k in {0,2,3,4,7,8,9,15,16,17}), Pop/Dequeue, Peek, Clear and FromJSON/json.Unmarshal of arrays in arbitrary, ascending or descending order on BinaryHeap and PriorityQueue, " +
 			"elements {P, unique ID} under five comparators (min, max, all-equal, total, coarsened => ties between distinguishable elements); after every call Size, Peek minimality, Values() and a full iterator walk are compared with a multiset; every case ends with a full drain. " +
 			"One case in 131 is big: 300 to 4200 elements built with bulk pushes across level boundaries, then held at that size by runs of single Pops and Pushes. One case in five runs the same multiset monitor over other element types: interface values holding slices (not comparable with ==), float64 incl. NaN, the infinities and both zeros (identified by their bits), pointers incl. nil, int and string on heaps built by New (built-in order), and structs with an omit-when-empty JSON field loaded by FromJSON from documents with omitted fields and null entries. " +
@@ -626,6 +719,7 @@ func init() {
 			f.atLeast("call:PriorityQueue.Clear", 100)
 			f.atLeast("heap:big-hold-phases", 50)
 			f.atLeast("heap:boundary-cases", heapBoundaryCases)
+			f.atLeast("heap:big-boundary-cases", heapBigBoundaryCases)
 			f.atLeast("heap:arrangement-cases", heapPermCases)
 			f.atLeast("heap:fromjson-arrangements", 100000)
 			f.atLeast("heap:wrong-tree-ordered-arrays", 10000)
